@@ -67,6 +67,27 @@ def gen(ctx):
         nt = 16
         progs = ["c%d:%d,c%d:%d" % (rng.randrange(2), rng.randrange(2), rng.randrange(2), rng.randrange(2)) for _ in range(4)]
         cases.append("%d\t%s\t%s\t%s" % (nt, ",".join(C.hexs(e) for e in exprs), ";".join(docs), "|".join(progs)))
+    # large arrays (1024 .. 5000 elements) with several ill-typed elements in different places: whichever way an implementation splits the
+    # work, the error of the FIRST failing element in document order is the result
+    for _ in range(4 if ctx.tier == "quick" else 100):
+        nel = rng.choice([1024, 1500, 2048, 4097, 5000])
+        xs = ["u%d" % (i % 7) for i in range(nel)]
+        for _k in range(rng.randrange(2, 5)):
+            xs[rng.randrange(nel)] = rng.choice(["t", G.enc_str("s"), "n", "[ ]", "{ }"])
+        docs = ["[ " + " ".join(xs) + " ]", "[ u1 u2 ]", "{ s61 [ " + " ".join(xs) + " ] }"]
+        exprs = ["[*].abs(@)", "map(&abs(@), @)", "[?abs(@) > `0`]", "a[*].ceil(@)", "[*].abs(@) | length(@)", "sum(@)", "max(@)", "[].abs(@)", "sort_by(@, &abs(@))"]
+        nt = rng.choice([2, 8])
+        progs = [",".join("s%d:%d" % (rng.randrange(len(exprs)), rng.randrange(3)) for _ in range(6)) for _ in range(nt)]
+        cases.append("%d\t%s\t%s\t%s" % (nt, ",".join(C.hexs(e) for e in exprs), ";".join(docs), "|".join(progs)))
+    # custom-function cases: higher-order custom functions that evaluate an expression reference through the public API, nested in each other
+    # and in themselves, on all threads at once (anything that serialises custom calls with a non-re-entrant lock never returns)
+    for _ in range(8 if ctx.tier == "quick" else 200):
+        exprs = ["ap(&length(@), @)", "ap(&ap(&length(@), @), @)", "ap(&ap2(&@, @), @)", "ap2(&ap(&@, @), @)", "cf(@, ap(&@[0], @))", "ap(&cf(@, @), @)",
+                 "[*].ap(&type(@), @)", "ap(&sort_by(@, &ap2(&@, @)), @)", "map(&ap(&@, @), @)", "ap(&abs(@), @)", "ap2(&ap2(&ap2(&length(@), @), @), @)"]
+        docs = ["[ u3 u1 u2 ]", "[ s62 s61 ]", "{ s61 u1 }"]
+        nt = rng.choice([2, 8, 16])
+        progs = [",".join("s%d:%d" % (rng.randrange(len(exprs)), rng.randrange(3)) for _ in range(rng.randrange(3, 30))) for _ in range(nt)]
+        cases.append("%d\t%s\t%s\t%s" % (nt, ",".join(C.hexs(e) for e in exprs), ";".join(docs), "|".join(progs)))
     # bulk cases: every thread compiles (through the shared default runtime) and searches thousands of DISTINCT expressions, so that anything
     # shared and size-dependent behind compile (tables that fill up, get evicted or rehashed) is exercised while other threads are inside it
     for _ in range(3 if ctx.tier == "quick" else 60):
@@ -118,7 +139,11 @@ def run(ctx):
             ctx.violation("threads", c[:600], "threads: " + f["threads"][:300], "sequential: " + f.get("sequential", "")[:300],
                           "concurrent results differ from a sequential execution")
             continue
+        if C.hexs("ap(&") in c.split("\t")[1]:
+            continue          # the custom functions of these cases exist in the harness only: judged against the sequential run alone
         mm = (m or "NONE")
+        if "FAULT" in mm:
+            continue          # the model ran out of its evaluation fuel: no opinion (the sequential run has already been compared)
         if not mm.startswith("sequential=") or canon_line(mm[len("sequential="):]) != canon_line(f["threads"]).replace("E parse parse", "E parse parse"):
             a, b = canon_line(f["threads"]), canon_line(mm[len("sequential="):]) if mm.startswith("sequential=") else mm
             # compile errors are printed as `C E parse …` by both; normalise model's wording
